@@ -39,11 +39,15 @@ RelVariants ==
   \cup {[re |-> re, n2 |-> n2] : re \in {"realloc", "reallocarray"}, n2 \in Sizes}
 \* requests that must fail with the prescribed value (n = -1: beyond PTRDIFF_MAX resp. overflowing product)
 ErrVariants ==
-  {[ae |-> "posix_memalign", n |-> 64, al |-> al, re |-> "none", n2 |-> 0] : al \in {0, 4, 24}}
-  \cup {[ae |-> "posix_memalign", n |-> -1, al |-> 64, re |-> "none", n2 |-> 0],
-        [ae |-> "reallocarray_null", n |-> -1, al |-> 0, re |-> "none", n2 |-> 0]}
-Variants == {[ae |-> av.ae, n |-> av.n, al |-> av.al, re |-> rv.re, n2 |-> rv.n2] : av \in AllocVariants, rv \in RelVariants}
-              \cup ErrVariants
+  {[ae |-> "posix_memalign", n |-> 64, al |-> al, re |-> "none", n2 |-> 0, lib |-> "any"] : al \in {0, 4, 24}}
+  \cup {[ae |-> "posix_memalign", n |-> -1, al |-> 64, re |-> "none", n2 |-> 0, lib |-> "any"],
+        [ae |-> "reallocarray_null", n |-> -1, al |-> 0, re |-> "none", n2 |-> 0, lib |-> "any"]}
+\* every form of operator new once with an unsatisfiable size, against a library compiled as C and one compiled as C++
+FailNewVariants ==
+  {[ae |-> ae, n |-> -1, al |-> (IF ae \in AlignedAlloc THEN 64 ELSE 0), re |-> "none", n2 |-> 0, lib |-> lib] :
+      ae \in CppAlloc, lib \in {"c", "cxx"}}
+Variants == {[ae |-> av.ae, n |-> av.n, al |-> av.al, re |-> rv.re, n2 |-> rv.n2, lib |-> "any"] : av \in AllocVariants, rv \in RelVariants}
+              \cup ErrVariants \cup FailNewVariants
 
 Cpp == plan.re # "none" /\ Flavour(plan.ae, plan.re) = "cpp"
 W1Entry == "calloc"
@@ -57,15 +61,16 @@ CallRec(ep, id, n, al) ==
 RetRec(ep, null, id, a, us, z, keep, rc, errno, inheap, used) ==
   [e |-> "ret", t |-> 0, op |-> ep, null |-> null, id |-> id, a |-> a, us |-> us, z |-> z, gen |-> 1, wr |-> 0,
    keep |-> keep, rc |-> rc, errno |-> errno, outkeep |-> TRUE, res |-> TRUE, h |-> 0, nvisited |-> 0, obs |-> <<>>,
-   inheap |-> inheap, used |-> used]
+   inheap |-> inheap, used |-> used, out |-> "", sig |-> 0]
 
 CellAddr(k) == <<16 * k, 0>>
 Addrs == {CellAddr(k) : k \in 1..Cells}
 FreeCell(a) == \A b \in LiveIds : live[b].a # a
 LowestFree == CHOOSE a \in Addrs : FreeCell(a) /\ \A a2 \in Addrs : FreeCell(a2) => LeA(a, a2)
 
-MCInit == /\ OvInit /\ nextId = 1 /\ prog = <<>> /\ pc = "w1" /\ xid = 0
+MCInit == /\ OvInit0 /\ nextId = 1 /\ prog = <<>> /\ pc = "w1" /\ xid = 0
           /\ plan \in Variants
+          /\ ocfg = [DefaultCfg EXCEPT !.libcxx = IF plan.lib = "cxx" THEN 1 ELSE 0]
 
 Idle == flux[0] = NoCall
 \* what the emitted program says: realpath's size is determined by the path; n < 0 is symbolic
@@ -111,8 +116,13 @@ DoRet ==
               OvRet(RetRec(c.ep, FALSE, nextId, a, us, us, c.n, 0, 0, inheap, card + d))
         /\ xid' = nextId /\ nextId' = nextId + 1 /\ pc' = AfterX
      \/ \* a malformed request: NULL with any of the codes (the guards keep the prescribed one)
-        /\ pc = "x" /\ c.cls # "ok"
+        /\ pc = "x" /\ c.cls # "ok" /\ ~FailingNew(c)
         /\ \E code \in {0, 12, 22} : OvRet(RetRec(c.ep, TRUE, nextId, <<0, 0>>, 0, 0, 0, code, code, 0, card))
+        /\ xid' = 0 /\ nextId' = nextId + 1 /\ pc' = "f2"
+     \/ \* operator new that cannot be satisfied: every way the call can end (the guards keep the prescribed ones)
+        /\ pc = "x" /\ FailingNew(c)
+        /\ \E o \in {"null", "nonnull", "threw", "threw_other", "abort", "exit"} :
+              OvRet([RetRec(c.ep, TRUE, nextId, <<0, 0>>, 0, 0, 0, 0, 0, 0, card) EXCEPT !.out = o])
         /\ xid' = 0 /\ nextId' = nextId + 1 /\ pc' = "f2"
      \/ \* release
         /\ pc \in {"rel", "fin", "f2", "f1"} /\ c.op \in FreeOps
@@ -152,6 +162,7 @@ DoneClean == pc \in {"emit", "done"} => LiveIds = {}
 
 GenEmit == pc = "done" =>
   PrintT(<<"PROGRAM", ToJson([ae |-> plan.ae, re |-> plan.re, n |-> LogN(plan.ae, plan.n), al |-> plan.al, n2 |-> plan.n2,
-                               flavour |-> (IF plan.re = "none" THEN "c" ELSE Flavour(plan.ae, plan.re)),
+                               lib |-> plan.lib,
+                               flavour |-> (IF plan.re = "none" THEN (IF plan.ae \in CppAlloc THEN "cpp" ELSE "c") ELSE Flavour(plan.ae, plan.re)),
                                std |-> (plan.re = "none" \/ StdDefined(plan.ae, plan.re)), calls |-> prog])>>)
 =============================================================================
